@@ -1,4 +1,5 @@
 import PedVerif.Lemmas.CheckerEnvs
+import PedVerif.Props.Callable
 /-!
 # C02 — the type checker is complete and spelling-independent
 
